@@ -451,6 +451,14 @@ def file_state_rule(ctx, rid):
     for mname in members:
         clears = set(c for c in fn.all('CXXMemberCallExpr') if (fn.nodes[c].get('callee') or '').endswith('::clear') and
                      fn.key(fn.nodes[c].get('obj', -1)) == 'this.' + mname)
+        for c in fn.all('CXXOperatorCallExpr'):
+            v = fn.nodes[c]
+            if v.get('op') == '=' and len(v.get('args', [])) == 2 and fn.key(v['args'][0]) == 'this.' + mname:
+                r = fn.nodes[fn.strip(v['args'][1], casts=True)]
+                while r.get('k') in ('MaterializeTemporaryExpr', 'CXXBindTemporaryExpr', 'CXXFunctionalCastExpr') and r.get('ch'):
+                    r = fn.nodes[fn.strip(r['ch'][0], casts=True)]
+                if r.get('k') in ('CXXConstructExpr', 'CXXTemporaryObjectExpr', 'InitListExpr') and not r.get('args') and not r.get('ch'):
+                    clears.add(c)      # assignment of an empty container
         stale = any(fn.reaches_point(fn.entry, fn.pos(r), clears) for r in reads)
         ctx.ob(rid, fn, fn.body, bool(clears) and not stale, 'per-file state %s' % mname,
                'cleared before the first line on every path: %s' % (bool(clears) and not stale))
